@@ -296,7 +296,7 @@ func (m *monC06) AfterCheck(w *World, tx *TxCtx) {
 			continue
 		}
 		// affordability: liquid + locked >= S (pre-admission figures stashed by the executor)
-		if tx.Spec.Granter == 0 {
+		if len(tx.Granter) == 0 {
 			sp, _ := tx.Stash["check.spendable"].(sdk.Coins)
 			lk, _ := tx.Stash["check.locked"].(sdk.Coin)
 			have := sp.AmountOf(d).BigInt()
